@@ -353,10 +353,12 @@ class LDAPSession:
                 f"LDAP session is BINDING, can only send a BindRequest, BindResponse, or UnbindRequest not {type(msg).__name__}"
             )
 
-        elif self.state == SessionState.BEFORE_OPEN:
+        data = msg.pack(self._packing_options)
+
+        if self.state == SessionState.BEFORE_OPEN:
             self.state = SessionState.OPENED
 
-        self._outgoing_buffer.extend(msg.pack(self._packing_options))
+        self._outgoing_buffer.extend(data)
 
         return msg.message_id
 
